@@ -9,3 +9,4 @@ import RosuModel.Props.C04Timing
 import RosuModel.Props.C04File
 import RosuModel.Props.C04Toy
 import RosuModel.Props.C04Decoded
+import RosuModel.Props.C04Ieee
